@@ -38,3 +38,24 @@ Print Assumptions C01_decoder_returns_the_layer_walk.
 Example C01_walk_premises_satisfiable :
   wf_stg loopG /\ sat loop_sol (encode_kfdc (loop_inst 1)) /\ sat loop_sol (encode_kpcc loop_kpcc).
 Proof. split; [exact loopG_wf|]. split; [exact loop_feasible|exact loop_kpcc_feasible]. Qed.
+
+(* ---- audit: ALL hypotheses of C01_walk_layer_is_one_walk / C01_decoder_returns_the_layer_walk hold together on a graph with a cycle
+   (source -> x, the self-loop x -> x, x -> sink; one walk going round once), and the walk handed out passes the loop exactly once ---- *)
+Example C01_walk_all_premises_hold :
+  let I := kfdc_walk (loop_inst 1) in
+  wf_stg (w_graph I) /\ Forall (sat_col loop_sol) (walk_cols I) /\ Forall (sat_row loop_sol) (walk_rows I) /\
+  o_allow_empty (w_opts I) = false /\ In 0%N (layers (w_k I)) /\
+  exists w', solution_walk (map (fun e => (e, loop_sol (evar e 0%N))) (g_edges (w_graph I))) (g_src (w_graph I)) (g_snk (w_graph I)) = Some (O, w') /\
+             count_e (0, 0)%N (pairs (g_src (w_graph I) :: w' ++ [g_snk (w_graph I)])) = 1%nat.
+Proof.
+  intros I.
+  assert (Hc : Forall (sat_col loop_sol) (walk_cols I) /\ Forall (sat_row loop_sol) (walk_rows I)).
+  { destruct loop_feasible as [Hc Hr]. unfold encode_kfdc in Hc, Hr. cbn [cols rows] in Hc, Hr. unfold base_wcols, base_wrows in Hc, Hr.
+    rewrite !Forall_app in Hc, Hr. split; [apply Hc|apply Hr]. }
+  destruct Hc as [Hc Hr].
+  assert (Hi : In 0%N (layers (w_k I))) by (vm_compute; tauto).
+  split; [exact loopG_wf|]. split; [exact Hc|]. split; [exact Hr|]. split; [reflexivity|]. split; [exact Hi|].
+  destruct (C01_decoder_returns_the_layer_walk I loop_sol 0%N loopG_wf Hc Hr eq_refl Hi) as (w' & Hw & Hcount & _).
+  exists w'. split; [exact Hw|]. rewrite (Hcount (0, 0)%N ltac:(vm_compute; tauto)). vm_compute. reflexivity.
+Qed.
+Print Assumptions C01_walk_all_premises_hold.
